@@ -140,7 +140,7 @@ Proof. vm_compute. reflexivity. Qed.
    set, single- and double-dot segments in all nine + three spellings).
    [request_path base_path rel] is the path of the URL requested for [rel]; [None] means
    the reference selected another scheme or authority.  [bytes]: every element is 0..255. *)
-From RM Require Import C17.UrlModel C17.UrlProofs.
+From RM Require Import C17.UrlModel C17.UrlProofs C17.UrlFull C17.UrlFullProofs.
 
 (* every safe relative byte path: the encoded reference is a plain relative path (no scheme,
    authority, query or fragment can be parsed from it) and resolution only appends to the base
@@ -189,6 +189,70 @@ Example c17_nonvacuous_url :
   request_path [47;114;47;105] [46;47;97;32;195;169] = Some [47;114;47;97;37;50;48;37;67;51;37;65;57] /\ (* "./a é" on /r/i -> /r/a%20%C3%A9 *)
   url_join_path [47;114;47;115;47] [46;46;47;46;46;47;46;46;47;120] = Some [47;120].      (* the model pops, never above "/" *)
 Proof. repeat split; vm_compute; reflexivity. Qed.
+
+(* ====================================================================================
+   Round 5, second pass — the WHOLE of Url::join's dispatch (C17/UrlFull.v): scheme detection incl. the
+   "special scheme equal to the base's, fewer than two slashes => relative" rule, file / non-special schemes, the
+   authority branch (leading "//", "\\/", ...), absolute paths, query / fragment — not only the relative-path
+   branch the path-only model answers.  [request_target scheme base_path p] = where http.rs sends the request for
+   the lookup path p: JSame path (the configured server), JAuthority (another host), JOpaque (another scheme). *)
+
+(* ALL byte strings p, no hypothesis at all: after join_rel's encoding the request never leaves the configured
+   server's scheme, and it leaves its authority (host) exactly when p starts with "//" *)
+Theorem c17_url_resolve_all_strings : forall base_scheme base_path p, bytes p ->
+  match request_target base_scheme base_path p with
+  | JOpaque _ _ => False
+  | JAuthority s _ => s = base_scheme /\ starts_two_slashes p = true
+  | JSame _ => starts_two_slashes p = false
+  end.
+Proof. exact resolve_all_strings. Qed.
+Print Assumptions c17_url_resolve_all_strings.
+
+(* the exact request target of every byte string (target_spec: the empty path keeps the base path; "//" selects an
+   authority; one leading "/" resolves from the root; anything else below the base directory, segment by segment) *)
+Theorem c17_url_resolve_exact : forall base_scheme base_path p, bytes p ->
+  request_target base_scheme base_path p = target_spec base_scheme base_path p.
+Proof. exact request_target_all. Qed.
+Print Assumptions c17_url_resolve_exact.
+
+(* a safe relative path: the configured scheme and authority, and a path below the base directory *)
+Theorem c17_url_resolve_contained : forall base_scheme base_path p, bytes p -> safe_rel p ->
+  exists r, request_target base_scheme base_path p = JSame r /\
+            ((p = [] /\ r = base_path) \/ exists t, r = base_dir base_path ++ t).
+Proof. exact resolve_contained. Qed.
+Print Assumptions c17_url_resolve_contained.
+
+(* the full model and the path-only model of C17/UrlModel.v agree wherever the latter answers *)
+Theorem c17_url_models_agree : forall base_scheme base_path reference q,
+  url_join_path base_path reference = Some q -> url_resolve base_scheme base_path reference = JSame q.
+Proof. exact resolve_agrees. Qed.
+Print Assumptions c17_url_models_agree.
+
+(* non-vacuity / what the other branches do on raw references (these are what the url crate is compared with):
+   https://e/x -> host e; http:x against an http base is RELATIVE (/r/x) but against https it is host x;
+   //e/x and \/e?x -> host e; HT<TAB>TP:/x -> /x; ab:c and File:///x -> another scheme; /x and ../x -> /x *)
+Example c17_nonvacuous_url_branches :
+  url_resolve s_http b_r [104;116;116;112;115;58;47;47;101;47;120] = JAuthority s_https [101] /\
+  url_resolve s_http b_r [104;116;116;112;58;120] = JSame [47;114;47;120] /\
+  url_resolve s_https b_r [104;116;116;112;58;120] = JAuthority s_http [120] /\
+  url_resolve s_http b_r [104;116;116;112;58;47;47;101;64;102;47] = JAuthority s_http [101;64;102] /\
+  url_resolve s_http b_r [47;47;101;47;120] = JAuthority s_http [101] /\
+  url_resolve s_http b_r [92;47;101;63;120] = JAuthority s_http [101] /\
+  url_resolve s_http b_r [72;84;9;84;80;58;47;120] = JSame [47;120] /\
+  url_resolve s_http b_r [97;98;58;99] = JOpaque [97;98] [99] /\
+  url_resolve s_http b_r [70;105;108;101;58;47;47;47;120] = JOpaque s_file [47;47;47;120] /\
+  url_resolve s_http b_r [47;120] = JSame [47;120] /\
+  url_resolve s_http b_r [46;46;47;120] = JSame [47;120].
+Proof. exact resolve_branches. Qed.
+(* and through join_rel: "https://e/x" -> /r/https%3A//e/x, "\\\\e\\x" -> /r/%5C%5Ce%5Cx on the configured server;
+   "//e/x" -> host e and "/x" -> /x: the two shapes the property's first condition excludes *)
+Example c17_nonvacuous_url_encoded :
+  request_target s_http b_r [104;116;116;112;115;58;47;47;101;47;120]
+    = JSame [47;114;47;104;116;116;112;115;37;51;65;47;47;101;47;120] /\
+  request_target s_http b_r [92;92;101;92;120] = JSame [47;114;47;37;53;67;37;53;67;101;37;53;67;120] /\
+  request_target s_http b_r [47;47;101;47;120] = JAuthority s_http [101] /\
+  request_target s_http b_r [47;120] = JSame [47;120].
+Proof. exact resolve_encoded_examples. Qed.
 
 (* ====================================================================================
    The consumers.  [joined_fields c module] is every string consumer c passes to Path::join or
